@@ -107,9 +107,10 @@ def gen_C05(chk):
     for a in ints:
         for w in ("null", "nonnull", "true", "false"):
             cases.append(("I", w, a, 0))
-        if -2**31 <= a < 2**31:           # the legacy macros hand the value to an int parameter
-            for w in ("true", "false", "truem", "falsem"):
-                cases.append(("L", w, a, 0))
+        # the legacy truth macros over the whole intptr_t range: an operand that is non-zero only above bit 31
+        # is true all the same (the reporter's `int result` parameter may not see the operand itself)
+        for w in ("true", "false", "truem", "falsem"):
+            cases.append(("L", w, a, 0))
     # all strings over {a,b} up to length 3 (4 in the thorough tier), every pair
     maxlen = 3 if chk.tier == "quick" else 4
     small = [bytes(t) for n in range(maxlen + 1) for t in itertools.product(b"ab", repeat=n)]
